@@ -145,6 +145,8 @@ type engine struct {
 	bounds     map[string]ival
 	nextID     int
 	siteVisits map[string]map[*ssa.BasicBlock]int
+	symVisits  map[string]map[*ssa.BasicBlock]int // symbolic tests taken, per call-site chain (like siteVisits)
+	loops      map[*ssa.BasicBlock][]*ssa.BasicBlock
 	stack      []*frame
 	npaths     int
 	nprune     int
@@ -354,13 +356,25 @@ func (e *engine) finish(p *Path) {
 	}
 }
 
+// hardVisitCap: extra visits a block may get when its test is decided by constants.
+const hardVisitCap = 24
+
 func (e *engine) runBlock(fr *frame, b *ssa.BasicBlock, pred *ssa.BasicBlock) {
 	if e.stop {
 		return
 	}
-	if fr.visits[b] >= e.o.MaxVisits {
+	// loop bound (A10).  The bound limits how often a SYMBOLIC loop test may be taken on one
+	// path; a block whose branch condition folds to a constant (a loop over a list of known
+	// length, e.g. an ordered table of checks) does not fork and is unrolled in full, up to a
+	// hard cap.  The visit is charged at the block's If (runFrom) when it has one.
+	if _, endsInIf := b.Instrs[len(b.Instrs)-1].(*ssa.If); endsInIf {
+		if fr.visits[b] >= e.o.MaxVisits+hardVisitCap {
+			e.nprune++
+			return
+		}
+	} else if fr.visits[b] >= e.o.MaxVisits {
 		e.nprune++
-		return // loop bound (A10): this path prefix is cut
+		return // this path prefix is cut
 	}
 	fr.visits[b]++
 	e.trail = append(e.trail, func() { fr.visits[b]-- })
@@ -400,6 +414,38 @@ func (e *engine) runFrom(fr *frame, b *ssa.BasicBlock, i int) {
 		case *ssa.DebugRef:
 		case *ssa.If:
 			c := e.val(fr, in.Cond)
+			if c.IsConst() {
+				// the test of a constant-trip loop (range over a list of known length): each of
+				// its iterations gives the symbolic tests inside the loop a fresh budget - the
+				// iteration count is bounded by the constants, not by the data
+				if sv := e.symVisits[fr.key]; sv != nil {
+					for _, x := range e.loopOf(b) {
+						if n := sv[x]; n > 0 {
+							sv[x] = 0
+							xx, nn := x, n
+							e.trail = append(e.trail, func() { sv[xx] = nn })
+						}
+					}
+				}
+			}
+			if !c.IsConst() {
+				// a symbolic test: charge it against the loop bound
+				if e.symVisits == nil {
+					e.symVisits = map[string]map[*ssa.BasicBlock]int{}
+				}
+				sv := e.symVisits[fr.key]
+				if sv == nil {
+					sv = map[*ssa.BasicBlock]int{}
+					e.symVisits[fr.key] = sv
+				}
+				if sv[b] >= e.o.MaxVisits {
+					e.nprune++
+					return
+				}
+				sv[b]++
+				bb := b
+				e.trail = append(e.trail, func() { sv[bb]-- })
+			}
 			m := e.mark()
 			cp := condPos(b, in)
 			e.curPos = cp
@@ -764,6 +810,16 @@ func typeName(t types.Type) string {
 }
 
 func binop(op token.Token, x, y *Term, T types.Type) *Term {
+	// cmp.Compare(a, b) OP 0 is a OP b (ordered integer / string operands)
+	switch op {
+	case token.EQL, token.NEQ, token.LSS, token.GTR, token.LEQ, token.GEQ:
+		if x.Op == "call" && x.Name == "cmp.Compare" && len(x.Args) == 2 && y.IsConst() && y.Name == "0" {
+			return binop(op, x.Args[0], x.Args[1], T)
+		}
+		if y.Op == "call" && y.Name == "cmp.Compare" && len(y.Args) == 2 && x.IsConst() && x.Name == "0" {
+			return binop(op, y.Args[1], y.Args[0], T)
+		}
+	}
 	xs, ys := x.String(), y.String()
 	switch op {
 	case token.EQL, token.NEQ:
@@ -1167,7 +1223,7 @@ func (e *engine) narrowLin(atom *Term, pol bool) bool {
 
 func (e *engine) calleeName(c *ssa.CallCommon) string {
 	if c.IsInvoke() {
-		return shortName(c.Method.FullName())
+		return ifaceCalleeName(c.Method)
 	}
 	switch v := c.Value.(type) {
 	case *ssa.Function:
@@ -1184,6 +1240,9 @@ func funcName(fn *ssa.Function) string {
 	f := fn
 	if o := fn.Origin(); o != nil {
 		f = o
+	}
+	if ci := canonOf(f); ci != nil {
+		return ci.name // a renamed helper answers to its pinned name (canon.go)
 	}
 	if obj, ok := f.Object().(*types.Func); ok && obj != nil {
 		return shortName(obj.FullName())
@@ -1272,6 +1331,13 @@ func (e *engine) doCall(fr *frame, site ssa.Instruction, c *ssa.CallCommon, preF
 				for _, tb := range target.Blocks {
 					for _, ti := range tb.Instrs {
 						if ci, ok := ti.(ssa.CallInstruction); ok {
+							if cc := ci.Common(); cc.IsInvoke() && len(cc.Args) == len(args) {
+								// x.M of an interface value x: an invoke of M on the captured x
+								target, free = nil, nil
+								args = append([]*Term{fun.Args[0]}, args...)
+								name = ifaceCalleeName(cc.Method)
+								continue
+							}
 							if m := ci.Common().StaticCallee(); m != nil && m.Blocks != nil && len(m.Params) == len(args)+1 {
 								target, free = m, nil
 								args = append([]*Term{fun.Args[0]}, args...)
@@ -1290,8 +1356,8 @@ func (e *engine) doCall(fr *frame, site ssa.Instruction, c *ssa.CallCommon, preF
 		if e.o.OnInline != nil {
 			e.o.OnInline(target)
 		}
-		callT := &Term{Op: "call", Name: name, Args: args, ID: e.newID(), Typ: resT, Site: site}
-		e.emit(Event{Kind: EvEnter, Call: callT, Instr: site, Fn: fr.fn, Depth: fr.depth, ArgVals: e.argVals(args)})
+		callT := &Term{Op: "call", Name: name, Args: canonArgs(target, args), ID: e.newID(), Typ: resT, Site: site}
+		e.emit(Event{Kind: EvEnter, Call: callT, Instr: site, Fn: fr.fn, Depth: fr.depth, ArgVals: e.argVals(callT.Args)})
 		fkey, fvis := e.frameVisits(fr, site, -1)
 		nf := &frame{fn: target, env: map[ssa.Value]*Term{}, visits: fvis, key: fkey, depth: fr.depth + 1, free: free}
 		for i, p := range target.Params {
@@ -1322,6 +1388,17 @@ func (e *engine) doCall(fr *frame, site ssa.Instruction, c *ssa.CallCommon, preF
 
 	for i, a := range args {
 		args[i] = e.filled(a)
+	}
+	if sc := c.StaticCallee(); sc != nil && !isDefer {
+		args = canonArgs(sc, args) // pinned parameter order of a re-signatured helper
+	} else if target != nil {
+		args = canonArgs(target, args)
+	}
+	// sdk.UnwrapSDKContext(c) / sdk.WrapSDKContext(c): the same context under its other static
+	// type - where a helper unwraps is not observable
+	if (name == "sdk.UnwrapSDKContext" || name == "sdk.WrapSDKContext") && len(args) == 1 {
+		cont(args[0])
+		return
 	}
 	// slices.Contains / Index / ContainsFunc / IndexFunc: a linear search, modelled as the
 	// loop it abbreviates (no element; or one symbolic element on which the predicate decides)
@@ -1685,18 +1762,31 @@ func (e *engine) runCallbackRound(fr *frame, site ssa.Instruction, callT *Term, 
 		if a.Op != "closure" && a.Op != "fn" {
 			continue
 		}
-		if a.Fn == nil || !e.inlineable(a.Fn, fr.depth+1) {
+		if a.Fn == nil {
+			continue
+		}
+		target, free := a.Fn, a.Args
+		var recv *Term
+		// a bound method value x.m handed over as the callback: run m with the captured x
+		if m := boundMethod(a.Fn); m != nil && len(a.Args) == 1 {
+			target, free, recv = m, nil, a.Args[0]
+		}
+		if !e.inlineable(target, fr.depth+1) {
 			continue
 		}
 		kk := k
-		target := a.Fn
 		if e.o.OnInline != nil {
 			e.o.OnInline(target)
 		}
 		e.emit(Event{Kind: EvCbBegin, Call: callT, Fun: a, Instr: site, Fn: fr.fn, Depth: fr.depth})
 		fkey, fvis := e.frameVisits(fr, site, kk+100*round)
-		nf := &frame{fn: target, env: map[ssa.Value]*Term{}, visits: fvis, key: fkey, depth: fr.depth + 1, free: a.Args}
-		for i, p := range target.Params {
+		nf := &frame{fn: target, env: map[ssa.Value]*Term{}, visits: fvis, key: fkey, depth: fr.depth + 1, free: free}
+		params := target.Params
+		if recv != nil && len(params) > 0 {
+			nf.env[params[0]] = recv
+			params = params[1:]
+		}
+		for i, p := range params {
 			t := &Term{Op: "opaque", Name: "cbarg" + strconv.Itoa(i), Args: []*Term{callT}, Typ: p.Type()}
 			if round > 0 {
 				t.Args = append(t.Args, intTerm(int64(round)))
@@ -1832,6 +1922,7 @@ var purePkgPrefixes = []string{
 	"errorsmod.", "(*errorsmod.", "(errorsmod.",
 	"golang.org/x/crypto/sha3.",
 	"slices.Concat", "slices.Clone", "bytes.Clone", // fresh copies: never alias their arguments
+	"cmp.Compare", "cmp.Less",
 	"collections.Join", "collections.NewPrefixedPairRange", "(*collections.PairRange", "(collections.Pair[",
 	"(*collections.Range",
 	"(address.Codec).",
@@ -2097,4 +2188,58 @@ func carrierStruct(t types.Type) (*types.Struct, bool) {
 		return nil, false
 	}
 	return localStruct(t)
+}
+
+// loopOf: the blocks of the natural loop headed by h (dominated by h and able to reach h);
+// empty when h heads no loop.
+func (e *engine) loopOf(h *ssa.BasicBlock) []*ssa.BasicBlock {
+	if e.loops == nil {
+		e.loops = map[*ssa.BasicBlock][]*ssa.BasicBlock{}
+	}
+	if l, ok := e.loops[h]; ok {
+		return l
+	}
+	// blocks that can reach h: backward DFS over predecessors
+	reach := map[*ssa.BasicBlock]bool{}
+	var stack []*ssa.BasicBlock
+	for _, p := range h.Preds {
+		stack = append(stack, p)
+	}
+	for len(stack) > 0 {
+		x := stack[len(stack)-1]
+		stack = stack[:len(stack)-1]
+		if reach[x] || !h.Dominates(x) {
+			continue
+		}
+		reach[x] = true
+		for _, p := range x.Preds {
+			stack = append(stack, p)
+		}
+	}
+	var out []*ssa.BasicBlock
+	for x := range reach {
+		if x != h {
+			out = append(out, x)
+		}
+	}
+	e.loops[h] = out
+	return out
+}
+
+// boundMethod: the method behind a go/ssa bound-method wrapper (x.m used as a value), when it
+// is a concrete method with a body.
+func boundMethod(fn *ssa.Function) *ssa.Function {
+	if fn == nil || fn.Synthetic == "" || fn.Blocks == nil || len(fn.FreeVars) != 1 {
+		return nil
+	}
+	for _, b := range fn.Blocks {
+		for _, in := range b.Instrs {
+			if ci, ok := in.(ssa.CallInstruction); ok {
+				if m := ci.Common().StaticCallee(); m != nil && m.Blocks != nil && m.Signature.Recv() != nil {
+					return m
+				}
+			}
+		}
+	}
+	return nil
 }
